@@ -836,3 +836,168 @@ Proof.
   rewrite Hneg, store_int_signed by assumption.
   f_equal. f_equal. rewrite !app_length, !repeat_length. lia.
 Qed.
+
+(* ================================================================== unsigned directives: u x X o *)
+
+Definition ubase (b : N) : Prop := b = 8 \/ b = 10 \/ b = 16.
+
+Lemma ubase_bounds : forall b, ubase b -> 2 <= b /\ b <= 16.
+Proof. intros b [-> | [-> | ->]]; lia. Qed.
+
+Lemma zeros_digits : forall b j, ubase b -> all_digits b (repeat c_zero j) /\ value_of b (repeat c_zero j) 0 = 0.
+Proof.
+  intros b j Hb. assert (Hz : digit_in b c_zero = Some 0) by (destruct Hb as [-> | [-> | ->]]; reflexivity).
+  induction j as [|j [IH1 IH2]]; [split; [constructor|reflexivity]|].
+  split.
+  - cbn [repeat]. constructor; [rewrite Hz; discriminate | exact IH1].
+  - cbn [repeat value_of]. rewrite Hz. exact IH2.
+Qed.
+
+Lemma digit_not_x : forall b c, digit_in b c <> None -> (c =? c_x) = false /\ (c =? c_X) = false.
+Proof.
+  intros b c H. unfold digit_in, digit_val in H. unfold c_x, c_X.
+  revert H. nb; try congruence; split; reflexivity.
+Qed.
+
+(* what may follow: not a digit of the base, and not x / X (after a lone 0 it would start a hex prefix) *)
+Definition stops_base (b : N) (rest : text) : Prop :=
+  match rest with
+  | [] => True
+  | c :: _ => digit_in b c = None /\ c <> c_x /\ c <> c_X
+  end.
+
+Lemma stops_base_stops : forall b rest, stops_base b rest -> stops b rest.
+Proof. intros b [|c r] H; [exact I|]. simpl in *. tauto. Qed.
+
+Lemma no_hex_prefix : forall b t rest, t <> [] -> all_digits b t -> stops_base b rest ->
+  has_hex_prefix b (t ++ rest) = false.
+Proof.
+  intros b t rest Hne Hd Hr. destruct t as [|c t]; [congruence|]. clear Hne.
+  inversion Hd as [|? ? Hc Ht]; subst. cbn [app].
+  destruct t as [|c2 t].
+  - cbn [app]. destruct rest as [|x [|h r]]; try reflexivity.
+    simpl in Hr. destruct Hr as (_ & Hx & HX). apply N.eqb_neq in Hx, HX.
+    unfold has_hex_prefix. rewrite Hx, HX. cbn [orb]. rewrite andb_false_r. reflexivity.
+  - inversion Ht as [|? ? Hc2 _]; subst. destruct (digit_not_x b c2 Hc2) as [Hx HX].
+    cbn [app]. unfold has_hex_prefix. destruct (t ++ rest); [reflexivity|].
+    rewrite Hx, HX. cbn [orb]. rewrite andb_false_r. reflexivity.
+Qed.
+
+Lemma scan_int_body_base : forall b upper k mag rest n2, ubase b -> stops_base b rest ->
+  scan_int_body b (repeat c_zero k ++ print_nat b upper mag ++ rest) n2
+  = Some (mag, (n2 + k + length (print_nat b upper mag))%nat).
+Proof.
+  intros b upper k mag rest n2 Hb Hr. destruct (ubase_bounds b Hb) as [Hlo Hhi].
+  destruct (zeros_digits b k Hb) as [Hzd Hzv].
+  pose proof (print_nat_all b upper Hlo Hhi mag) as Hpd.
+  unfold scan_int_body. rewrite app_assoc.
+  rewrite no_hex_prefix; [| | now apply all_digits_app | assumption].
+  2:{ intros E. apply app_eq_nil in E. destruct E as [_ E]. now apply (print_nat_nonempty b upper mag). }
+  assert (Hb0 : (b =? 0) = false) by (destruct Hb as [-> | [-> | ->]]; reflexivity). rewrite Hb0.
+  rewrite <- app_assoc.
+  rewrite scan_digits_app by exact Hzd. rewrite scan_digits_app by exact Hpd.
+  rewrite scan_digits_stop by (now apply stops_base_stops).
+  rewrite Hzv, print_nat_value by assumption. rewrite repeat_length.
+  destruct (0 + k + length (print_nat b upper mag))%nat eqn:E.
+  - exfalso. apply (print_nat_nonempty b upper mag). apply length_zero_iff_nil. lia.
+  - f_equal. f_equal. lia.
+Qed.
+
+Definition conv_unsigned (c : byte) : Prop := c = 117 \/ c = 120 \/ c = 88 \/ c = 111.
+
+Lemma conv_unsigned_facts : forall c, conv_unsigned c ->
+  conv_signed c = false /\ conv_is_int c = true /\ ubase (conv_base c) /\ (c =? 105) = false.
+Proof. intros c [-> | [-> | [-> | ->]]]; repeat split; try reflexivity; unfold ubase; cbn; auto. Qed.
+
+Definition urange (long : bool) (z : Z) : Prop :=
+  if long then (- two63 <= z < two63)%Z else (0 <= z < two32)%Z.
+
+Lemma scan_unsigned_shape : forall sconv b upper k1 k2 mag rest,
+  conv_unsigned sconv -> conv_base sconv = b -> ubase b -> stops_base b rest ->
+  scan_int_text sconv (repeat c_space k1 ++ repeat c_zero k2 ++ print_nat b upper mag ++ rest)
+  = Some (false, mag, (k1 + k2 + length (print_nat b upper mag))%nat).
+Proof.
+  intros sconv b upper k1 k2 mag rest Hsc Hbase Hb Hr.
+  destruct (conv_unsigned_facts _ Hsc) as (_ & _ & _ & H105).
+  destruct (ubase_bounds _ Hb) as [Hlo Hhi].
+  unfold scan_int_text. rewrite skip_ws_spaces. rewrite H105, Hbase.
+  set (digs := print_nat b upper mag).
+  assert (Hfirst : exists c r, repeat c_zero k2 ++ digs ++ rest = c :: r /\ digit_in b c <> None).
+  { destruct k2 as [|k2].
+    - cbn [repeat app]. pose proof (print_nat_all b upper Hlo Hhi mag) as Ha. fold digs in Ha.
+      pose proof (print_nat_nonempty b upper mag) as Hn. fold digs in Hn.
+      destruct digs as [|c r]; [congruence|]. inversion Ha; subst. cbn [app]. eauto.
+    - cbn [repeat app]. eexists _, _. split; [reflexivity|].
+      destruct Hb as [-> | [-> | ->]]; discriminate. }
+  destruct Hfirst as (c & r & Ec & Hcd).
+  destruct (digit_not_sign _ c Hcd) as [Hm Hp]. pose proof (digit_not_space _ c Hcd) as Hsp.
+  rewrite Ec. rewrite skip_ws_nonspace by assumption. cbn [scan_sign]. rewrite Hm, Hp. rewrite <- Ec.
+  unfold digs. rewrite scan_int_body_base by assumption.
+  reflexivity.
+Qed.
+
+Lemma store_unsigned : forall signext ssp sp z,
+  conv_unsigned (n_conv sp) -> conv_unsigned (n_conv ssp) -> n_long ssp = n_long sp -> urange (n_long sp) z ->
+  store_int signext ssp false (Z.to_N (Z.abs (int_arg sp z))) = z.
+Proof.
+  intros signext ssp sp z Hc Hsc Hlong Hz.
+  destruct (conv_unsigned_facts _ Hc) as (Hs & _). destruct (conv_unsigned_facts _ Hsc) as (Hs' & _).
+  unfold store_int. rewrite Hs'. rewrite Hlong. unfold int_arg. rewrite Hs. unfold urange in Hz.
+  destruct (n_long sp).
+  - assert (H0 : (0 <= z mod two64 < two64)%Z) by (apply Z.mod_pos_bound; reflexivity).
+    rewrite Z2N.id by lia. rewrite Z.abs_eq by lia.
+    destruct (Z.ltb_spec (two64 - 1) (z mod two64)); [lia|].
+    unfold wrap_signed. rewrite Z.mod_mod by (unfold two64; lia).
+    change two64 with (2 * two63)%Z. apply wrap_signed_id; unfold two63 in *; lia.
+  - assert (H0 : (z mod two32 = z)%Z) by (apply Z.mod_small; lia).
+    rewrite H0. rewrite Z2N.id by lia. rewrite Z.abs_eq by lia.
+    destruct (Z.ltb_spec (two64 - 1) z); [unfold two64, two32 in *; lia|].
+    rewrite H0. rewrite andb_false_r. reflexivity.
+Qed.
+
+(* Int through an unsigned directive without '#': %[0][width][l]u / x / X / o, read back by a directive of
+   the same base.  With `l` this holds for EVERY int64 (two's complement: -5 is written as 2^64 - 5 and
+   read back as -5); without `l` for 0 <= z < 2^32 *)
+Theorem int_unsigned_roundtrip : forall cf sp ssp z rest,
+  conv_unsigned (n_conv sp) -> conv_unsigned (n_conv ssp) -> conv_base (n_conv ssp) = conv_base (n_conv sp) ->
+  n_alt sp = false -> n_long ssp = n_long sp -> urange (n_long sp) z ->
+  stops_base (conv_base (n_conv sp)) rest ->
+  scan_num cf ssp (print_num sp (VInt z) ++ rest) = Some (VInt z, length (print_num sp (VInt z))).
+Proof.
+  intros cf sp ssp z rest Hc Hsc Hbase Halt Hlong Hz Hr.
+  destruct (conv_unsigned_facts _ Hc) as (Hs & Hi & Hb & _).
+  destruct (conv_unsigned_facts _ Hsc) as (Hs' & Hi' & _ & _).
+  unfold print_num, scan_num. rewrite Hi, Hi'. unfold print_int. rewrite Hs, Halt.
+  cbn [length Nat.add app]. unfold pad.
+  destruct (n_zero sp).
+  - change (repeat c_zero ?k ++ ?d) with (repeat c_space 0 ++ repeat c_zero k ++ d).
+    rewrite <- !app_assoc.
+    rewrite (scan_unsigned_shape (n_conv ssp) _ _ O _ _ rest Hsc Hbase Hb Hr).
+    rewrite (store_unsigned _ ssp sp z Hc Hsc Hlong Hz).
+    f_equal. f_equal. rewrite !app_length, !repeat_length. simpl. lia.
+  - match goal with |- context [repeat c_space ?k ++ ?d] =>
+      change (repeat c_space k ++ d) with (repeat c_space k ++ repeat c_zero 0 ++ d) end.
+    rewrite <- !app_assoc.
+    rewrite (scan_unsigned_shape (n_conv ssp) _ _ _ O _ rest Hsc Hbase Hb Hr).
+    rewrite (store_unsigned _ ssp sp z Hc Hsc Hlong Hz).
+    f_equal. f_equal. rewrite !app_length, !repeat_length. simpl. lia.
+Qed.
+
+(* an Int written by one numeric directive and read by another: the two classes proved above *)
+Definition int_directive_ok (cf : config) (sp ssp : nspec) (z : Z) (after : text) : Prop :=
+  (conv_signed (n_conv sp) = true /\
+   (n_conv ssp = 100 \/ (n_conv ssp = 105 /\ n_zero sp = false)) /\
+   in_range (n_long sp) z /\ in_range (n_long ssp) z /\
+   (n_long ssp = false -> cf_int_signext cf = true) /\ stops_int after)
+  \/
+  (conv_unsigned (n_conv sp) /\ conv_unsigned (n_conv ssp) /\
+   conv_base (n_conv ssp) = conv_base (n_conv sp) /\ n_alt sp = false /\ n_long ssp = n_long sp /\
+   urange (n_long sp) z /\ stops_base (conv_base (n_conv sp)) after).
+
+Theorem int_directive_roundtrip : forall cf sp ssp z after, int_directive_ok cf sp ssp z after ->
+  scan_num cf ssp (print_num sp (VInt z) ++ after) = Some (VInt z, length (print_num sp (VInt z))).
+Proof.
+  intros cf sp ssp z after [(H1 & H2 & H3 & H4 & H5 & H6) | (H1 & H2 & H3 & H4 & H5 & H6 & H7)].
+  - now apply int_dec_roundtrip.
+  - now apply int_unsigned_roundtrip.
+Qed.
